@@ -9,5 +9,6 @@ CONSTANTS
   GcProtectsBuilding = TRUE
   MaxFaults = 1
   StoreMetaFirst = TRUE
+  KillWaits = TRUE
 INVARIANT NeverDeletesNeeded
 CHECK_DEADLOCK FALSE
